@@ -13,9 +13,11 @@ Require Import Grist.Proofs.Renames_proofs Grist.Proofs.Renames_fresh_proofs Gri
 Require Import Grist.Proofs.Renames_print_proofs Grist.Proofs.Renames_check_proofs.
 Open Scope Z_scope.
 
-(* ---- the property at full strength, and why it does not hold as such ------------------------------------------- *)
-(* "Renaming column a of table T to any fresh name b leaves every formula value unchanged" *)
-Definition C16_statement (d : doc) (T a b : name) : Prop :=
+(* ---- the property for an engine that ACCEPTS every rename, and why some renames must be rejected ----------------- *)
+(* "Renaming column a of table T to any fresh name b leaves every formula value unchanged" -- with no column
+   protected.  Until fix b90267a the engine accepted RenameColumn <summary table> group X; it now rejects a rename of
+   `group` in a summary table (and of manualSort), and the harness checks that such a rejection leaves no trace. *)
+Definition C16_statement_unprotected (d : doc) (T a b : name) : Prop :=
   fresh_col d T b -> doc_wf d ->
   forall fuel self row f, wf_static d self [] f = true -> ~ In (T, b) (col_uses d self [] f) ->
     evalS fuel (rename_doc id_tab (col1 T a b) d) self row (ren id_tab (col1 T a b) d self [] f)
@@ -42,12 +44,13 @@ Definition ex_doc : doc :=
               mkcol GROUP (CRefList nU) (Some EGroup) [];
               mkcol nCount CPlain (Some f_count) []] [1; 2] [(1, [1; 3]); (2, [2])] ].
 
-(* DESIGN 2.3: RenameColumn <summary table> group X is accepted; the table is recognised as a summary table by its
-   column NAMED group, so after the rename the group is empty and count = len($group) drops from 2 to 0 *)
-Theorem C16_refuted_summary_group :
-  exists d T a b, ~ C16_statement d T a b.
+(* WHY the name `group` must be protected (DESIGN 2.3, fixed by b90267a): a table is recognised as a summary table by
+   its column NAMED group; if that column could be renamed, the group would become empty and count = len($group) would
+   drop from 2 to 0.  The witness is a rename the model of the protection (protected_col) rejects. *)
+Theorem C16_group_rename_must_be_rejected :
+  exists d T a b, ~ C16_statement_unprotected d T a b /\ protected_col d T a = true.
 Proof.
-  exists ex_doc, nS, GROUP, nZ. intro H.
+  exists ex_doc, nS, GROUP, nZ. split; [|vm_compute; reflexivity]. intro H.
   assert (Hfr : fresh_col ex_doc nS nZ) by (apply fresh_colb_sound; vm_compute; reflexivity).
   assert (Hwf : doc_wf ex_doc) by (apply doc_wfb_sound; vm_compute; reflexivity).
   specialize (H Hfr Hwf 5%nat nS 1 (EDollar nCount) eq_refl).
@@ -56,26 +59,30 @@ Proof.
 Qed.
 
 (* ---- what holds: consistent renaming changes no value -------------------------------------------------------- *)
-(* For every injective renaming of table names and (per table) of column names that leaves the name `group` alone,
-   every document whose formulas use the supported reference forms (doc_wf), every such formula, every row and every
+(* For every injective renaming of table names and (per table) of column names that does not rename a group-formula
+   column (is_grp: the reference list computed by table.getSummarySourceGroup) from or to the name `group`, every document whose formulas use the supported reference forms (doc_wf), every such formula, every row and every
    amount of fuel (so also for circular programs): evaluating the renamed formula in the renamed document gives the
    same value, records carrying the renamed table name. *)
 Theorem C16_rename_preserves_eval_general :
   forall (rn_tab : name -> name) (rn_col : name -> name -> name) prim1 prim2,
   (forall a b, name_eqb (rn_tab a) (rn_tab b) = name_eqb a b) ->
   (forall t a b, name_eqb (rn_col t a) (rn_col t b) = name_eqb a b) ->
-  (forall t c, name_eqb (rn_col t c) GROUP = name_eqb c GROUP) ->
   (forall f v, prim1 f (rn_val rn_tab v) = rn_res rn_tab (prim1 f v)) ->
   (forall f a b, prim2 f (rn_val rn_tab a) (rn_val rn_tab b) = rn_res rn_tab (prim2 f a b)) ->
-  forall d, doc_wf d -> forall fuel self row f, wf_static d self [] f = true ->
+  forall d,
+  (forall tb co, In tb d -> In co (tcols tb) -> is_grp co = true ->
+     name_eqb (rn_col (tname tb) (cname co)) GROUP = name_eqb (cname co) GROUP) ->
+  doc_wf d -> forall fuel self row f, wf_static d self [] f = true ->
   eval_formula prim1 prim2 fuel (rename_doc rn_tab rn_col d) (rn_tab self) row (ren rn_tab rn_col d self [] f)
   = rn_res rn_tab (eval_formula prim1 prim2 fuel d self row f).
 Proof. exact eval_formula_rn. Qed.
 
-(* RenameColumn T a -> b with b fresh (and neither name is `group`): no value changes, whatever the builtins are *)
+(* RenameColumn T a -> b with b fresh: no value changes, whatever the builtins are.  group_ok: the names `group`
+   matter only if the renamed column carries the group formula (then neither a nor b may be `group` -- the engine
+   rejects a = group in a summary table); every other column may be renamed from or to `group`. *)
 Theorem C16_rename_preserves_eval : forall prim1 prim2 fuel d T a b self row f,
   doc_wf d -> wf_static d self [] f = true ->
-  a <> GROUP -> b <> GROUP ->
+  group_ok d T a b ->
   fresh_col d T b -> ~ In (T, b) (col_uses d self [] f) ->
   eval_formula prim1 prim2 fuel (rename_doc id_tab (col1 T a b) d) self row (ren id_tab (col1 T a b) d self [] f)
   = eval_formula prim1 prim2 fuel d self row f.
@@ -103,7 +110,7 @@ Proof. intros. rewrite C16_rename_table_preserves_eval by assumption. apply obs_
 
 (* non-vacuity: the example document and its formulas satisfy every hypothesis; V -> Z really rewrites F and B *)
 Example C16_rename_preserves_eval_example :
-  doc_wf ex_doc /\ wf_static ex_doc nT [] f_sum = true /\ nV <> GROUP /\ nZ <> GROUP /\ fresh_col ex_doc nU nZ /\
+  doc_wf ex_doc /\ wf_static ex_doc nT [] f_sum = true /\ group_ok ex_doc nU nV nZ /\ fresh_col ex_doc nU nZ /\
   ~ In (nU, nZ) (col_uses ex_doc nT [] f_sum) /\
   ren id_tab (col1 nU nV nZ) ex_doc nT [] f_sum
     = EPrim1 1 (EComp (ECol (EVar nr) nZ) nr (ELookup false nU (KCons nK (EDollar nA) KNil) [(true, nZ)])) /\
@@ -111,8 +118,20 @@ Example C16_rename_preserves_eval_example :
   evalS 5 (rename_doc id_tab (col1 nU nV nZ) ex_doc) nT 1 (ren id_tab (col1 nU nV nZ) ex_doc nT [] f_sum) = ROk (VInt 40).
 Proof.
   split; [apply doc_wfb_sound; vm_compute; reflexivity|]. split; [reflexivity|].
-  split; [discriminate|]. split; [discriminate|]. split; [apply fresh_colb_sound; vm_compute; reflexivity|].
+  split; [apply group_okb_sound; vm_compute; reflexivity|]. split; [apply fresh_colb_sound; vm_compute; reflexivity|].
   split; [apply not_mem_pair; vm_compute; reflexivity|]. repeat split; vm_compute; reflexivity.
+Qed.
+
+(* the side condition is needed only for group-formula columns: a plain column may be renamed TO `group` (here A of Tt),
+   and a rename the engine's protection rejects (group of the summary table Ss) is exactly one that group_ok excludes *)
+Example C16_group_ok_example :
+  group_ok ex_doc nT nA GROUP /\ fresh_col ex_doc nT GROUP /\ protected_col ex_doc nT nA = false /\
+  evalS 5 (rename_doc id_tab (col1 nT nA GROUP) ex_doc) nT 1 (ren id_tab (col1 nT nA GROUP) ex_doc nT [] f_sum)
+    = evalS 5 ex_doc nT 1 f_sum /\
+  group_okb ex_doc nS GROUP nZ = false /\ protected_col ex_doc nS GROUP = true.
+Proof.
+  split; [apply group_okb_sound; vm_compute; reflexivity|]. split; [apply fresh_colb_sound; vm_compute; reflexivity|].
+  repeat split; vm_compute; reflexivity.
 Qed.
 
 Example C16_rename_table_example :
